@@ -833,6 +833,18 @@ func NewArray(elements []Object) Object {
 	return BigArray{elements: elements}
 }
 
+// AppendTarget returns the slice append() can be used on for the result of array + x. Arrays share their
+// backing storage (b = a is no copy) and a + x appends in place when the storage has room left. That is only
+// invisible to the other arrays using that storage as long as the first free slot was never written: if it
+// was, another array (b = a + 1) already lives there and appending in place would change it (and a value
+// appended there could end up containing itself). In that case the result gets storage of its own.
+func AppendTarget(elements []Object) []Object {
+	if n := len(elements); n < cap(elements) && elements[:n+1][n] != nil {
+		return elements[:n:n]
+	}
+	return elements
+}
+
 func Len(a Object) int {
 	a = Value(a)
 	switch a := a.(type) {
